@@ -228,6 +228,7 @@ struct Gen {
         em.emit(line);
     }
     void route_of(uint64_t h, std::string &route, std::string &m) {
+        h = (h + 0x9E3779B97F4A7C15ULL) * 0xBF58476D1CE4E5B9ULL; h ^= h >> 31;     // decorrelate from the callers' sampling
         switch (h % 6) {
         case 0: route = "f"; m = "c"; break;
         case 1: case 2: route = "ev"; m = "c"; break;
@@ -617,7 +618,7 @@ int main(int argc, char **argv) {
     // a case that makes no progress for this long is a hang; the runner's default (4 s) is too tight when
     // several checks share the machine, and a format call that really loops will still be caught
     std::vector<char *> av; av.push_back(argv[0]);
-    static char t0[] = "--timeout", t1[] = "25";
+    static char t0[] = "--timeout", t1[] = "12";
     av.push_back(t0); av.push_back(t1);
     for (int i = 1; i < argc; ++i) av.push_back(argv[i]);
     return run_main((int)av.size(), av.data(), gen, exec_case);
